@@ -318,23 +318,34 @@ def run_fanout(sc, chooser):
             rep = msg.get("message_type") == "eliot:destination_failure"
             key = "%s/%s" % (msg["task_uuid"], "/".join(map(str, msg["task_level"])))
             raised = (not rep) and msg.get("id") in fail.get(d, ())
-            s.event(e="deliver", d=d, key=key, kind="report" if rep else "msg", raised=raised)
+            kind = {"eliot:destination_failure": "report", "eliot:traceback": "tb", "eliot:serialization_failure": "sf"}.get(msg.get("message_type"), "msg")
+            s.event(e="deliver", d=d, key=key, kind=kind, raised=raised)
             if raised:
                 raise RuntimeError("destination %d fails on message %s" % (d, msg.get("id")))
         return dest
 
     D.add(*[mk(d) for d in sc["dests"]])
 
+    serfail = set(sc.get("serfail", ()))            # ids logged as a typed message whose serializer raises
+    from eliot import MessageType, Field
+
+    def _boom(v):
+        raise ValueError("this serializer always fails")
+    typed = MessageType("typed", [Field("id", _boom, "a field whose serializer raises")], "typed message")
+
     def logger(ids):
         def body():
             for i in ids:
-                log_message(message_type="m", id=i)
+                if i in serfail:
+                    typed.log(id=i)
+                else:
+                    log_message(message_type="m", id=i)
         return body
 
     for name, ids in sorted(sc["threads"].items()):
         s.spawn(name, logger(ids))
     s.run(chooser)
-    return {"ev": s.log, "dests": sc["dests"], "sent": sum(len(v) for v in sc["threads"].values()),
+    return {"ev": s.log, "dests": sc["dests"], "sent": sum(1 for v in sc["threads"].values() for i in v if i not in serfail), "serfails": len(serfail),
             "errors": [repr(t.error) for t in s.threads.values() if t.error] + ([s.deadlock] if s.deadlock else [])}, s.steps
 
 
